@@ -221,6 +221,34 @@ Section Recovery.
       apply IH in H. apply request_on_t2b in Er. congruence.
   Qed.
 
+  (* ... and from the moment each payload was resolved to the end of the resolution *)
+  Lemma resolve_loop_nonew_suffix : forall ps st group loads acc evs st' evs' resolved,
+    WF st -> Forall load_truthful loads -> resolve_loop st group ps loads acc evs = (st', evs', inl resolved) ->
+    exists new, resolved = acc ++ new /\ Forall (fun x => nonew (rs_state x) st') new.
+  Proof.
+    induction ps as [|p rest IH]; intros st group loads acc evs st' evs' resolved Hwf Hl H; simpl in H.
+    - inversion H; subst. exists []. rewrite app_nil_r. split; [reflexivity|constructor].
+    - destruct (resolve_one st group p loads) as [[[st1 loads1] ev] [n|e]] eqn:Er; [|discriminate].
+      destruct (resolve_one_nonew _ _ _ _ _ _ _ _ Hwf Hl Er) as [_ F1].
+      pose proof (resolve_one_WF _ _ _ _ _ _ _ _ Hwf Er) as W1.
+      destruct (resolve_loop_nonew _ _ _ _ _ _ _ _ _ W1 F1 H) as [N2 _].
+      destruct (IH _ _ _ _ _ _ _ _ W1 F1 H) as [new [Hres Hall]].
+      exists ({| rs_payload := p; rs_node := n; rs_state := st1 |} :: new).
+      split; [rewrite Hres, <- app_assoc; reflexivity|]. constructor; [exact N2|exact Hall].
+  Qed.
+
+  Lemma aware_ok_t2b : forall st group expect ps loads outs st1 evs resolved rs,
+    resolve_loop st group ps loads [] [] = (st1, evs, inl resolved) ->
+    a_res (aware st group expect ps loads outs) = SOk rs ->
+    s_t2b (a_state (aware st group expect ps loads outs)) = s_t2b st1.
+  Proof.
+    intros st group expect ps loads outs st1 evs resolved rs Hr H. unfold aware in *.
+    destruct ps as [|p0 ps0]; [discriminate|]. rewrite Hr in *.
+    destruct (send_requests st1 (group_by_node (resolved_pairs resolved)) outs []) as [[st2 sent] [e|]] eqn:Es; [discriminate|].
+    destruct (collect expect _ _ [] []) as [acc failed]. destruct failed; [|discriminate]. simpl.
+    eapply send_requests_t2b. exact Es.
+  Qed.
+
   Lemma aware_nonew : forall st group expect ps loads outs,
     WF st -> Forall load_truthful loads -> nonew st (a_state (aware st group expect ps loads outs)).
   Proof.
